@@ -474,7 +474,13 @@ def m_replace(ctx, args, callee):
     _s0 = as_str(ctx, args[0])
     if isinstance(_s0, SpecialStr):
         return _s0.sop(ctx, 'replace', args, callee)
-    return lift_str(ctx, lambda a, b, c: a.replace(b, c), as_str(ctx, args[0]), as_str(ctx, args[1]), as_str(ctx, args[2]))
+    pat = ctx.deref(args[1])
+    if is_bv(pat):
+        pc = conc(pat)
+        if pc is None:
+            raise Unmodelled('replace(symbolic char)')
+        pat = Str(chr(pc))
+    return lift_str(ctx, lambda a, b, c: a.replace(b, c), as_str(ctx, args[0]), as_str(ctx, pat), as_str(ctx, args[2]))
 
 
 @model(r'^<(std::string::String|str) as (std::ops::)?Index<(std::ops::)?Range(To|From|Full|Inclusive|ToInclusive)?<usize>>>::index$|^<(std::string::String|str) as (std::ops::)?Index<RangeFull>>::index$'
@@ -988,6 +994,13 @@ class RcV:
 
     def __init__(self, v):
         self.cell = Cell(v)
+
+
+@model(r'^<Box<.*> as (std::default::)?Default>::default$')
+def m_box_default(ctx, args, callee):
+    m = re.match(r'^<Box<(.*)> as (?:std::default::)?Default>::default$', callee.strip(), re.S)
+    inner = '<%s as Default>::default' % m.group(1)
+    return BoxV(ctx.call(inner, []))
 
 
 @model(r'^Box::new$|^<Box<.*> as From<.*>>::from$')
